@@ -8,9 +8,17 @@
    failure; the filter verdict and the robots behaviour are arbitrary too. *)
 From Coq Require Import List NArith ZArith Bool Lia.
 From Wpull Require Import Lib.MiniPy Spec.Scope Gen.Redirect Gen.UrlFilter Model.Visit
-                          Proofs.FilterProofs Proofs.VisitProofs Proofs.ScopeVisit.
+                          Proofs.FilterProofs Proofs.VisitProofs Proofs.ScopeVisit Proofs.ConstsAgree Gen.Consts.
 Import ListNotations.
 Open Scope bool_scope.
+
+(* The status-code classes of the processor and the code lists of the redirect tracker that Model/Visit.v uses are the
+   ones the source defines (Gen/Consts.v, regenerated from wpull/processor/web.py and protocol/http/redirect.py). *)
+Theorem C18_status_code_classes_are_the_sources :
+  DOCUMENT_STATUS_CODES = gen_document_status_codes /\ NO_DOCUMENT_STATUS_CODES = gen_no_document_status_codes /\
+  REDIRECT_CODES = gen_redirect_codes /\ REPEAT_REDIRECT_CODES = gen_repeat_redirect_codes.
+Proof. exact processor_status_codes_agree. Qed.
+Print Assumptions C18_status_code_classes_are_the_sources.
 
 (* 0. The translated RedirectTracker is the tracker of the model, for every state and response:
       load counts a response iff it carries a non-empty Location; exceeded is count > max
